@@ -141,3 +141,43 @@ Theorem C06_wf_boundary_refuted :
     run g c orc false fuel input = Parsed (RTree (NT (g_top g) (t :: rest))) /\ wf_tree t = false.
 Proof. exact wf_boundary_refuted. Qed.
 Print Assumptions C06_wf_boundary_refuted.
+
+From TxV Require Proofs.BuildPlaced.
+
+(* asg_placed derived from the TABLE.  BuildPlaced.table_asg_ok g mm K (decidable): below a root node that is not
+   a common rule (match / abstract rules, assignment nodes, the top node) no assignment node is reachable without
+   crossing another root.  For tables in the class of the C01 refinement theorem that satisfy it, every
+   NonTerminal of the interpreter's result has its children placed - proved on the reference semantics
+   (BuildPlaced.seval_placed) and transported by C01_refinement_partial.  Usable by every property that assumes
+   asg_placed of the parsed tree (C02_parsed_object_values, C34's Build bridge). *)
+Theorem C06_asg_placed_of_run :
+  forall g pf mm K c orc fuel input n t rest,
+    wfg g pf = true -> orc_pos orc -> BuildPlaced.table_asg_ok g mm K = true ->
+    run g c orc false fuel input = Parsed (RTree (NT n (t :: rest))) ->
+    asg_placed mm (BuildPlaced.commonb mm n) t = true.
+Proof. exact BuildPlaced.asg_placed_of_run_tree. Qed.
+Print Assumptions C06_asg_placed_of_run.
+
+(* C06_objects_nested_ordered with hypotheses on the table and the oracle only *)
+Theorem C06_objects_nested_ordered_run :
+  forall g pf mm K c orc fuel input r,
+    wfg g pf = true -> nosep g = true -> eof_ok g = true -> orc_pos orc -> BuildPlaced.table_asg_ok g mm K = true ->
+    run g c orc false fuel input = Parsed r ->
+    exists t rest, r = RTree (NT (g_top g) (t :: rest)) /\ wf_tree t = true /\
+      asg_placed mm (BuildPlaced.commonb mm (g_top g)) t = true /\
+      forall grp auto ug top v top', pnode g mm input grp auto ug t top = BOk (v, top') -> good (tpos t) (tend t) v.
+Proof. exact BuildPlaced.objects_nested_ordered_run. Qed.
+Print Assumptions C06_objects_nested_ordered_run.
+
+Example C06_objects_run_nonvacuous :
+  wfg g_items 24 = true /\ nosep g_items = true /\ eof_ok g_items = true /\
+  BuildPlaced.table_asg_ok g_items BuildPlaced.mm_items 24 = true /\
+  accepts (run g_items c_default (orc_of t_items) false 60 in_items) = true.
+Proof. exact BuildPlaced.placed_nonvacuous. Qed.
+Print Assumptions C06_objects_run_nonvacuous.
+
+(* the table condition fails when an assignment node sits below a match rule *)
+Example C06_table_asg_refuted :
+  BuildPlaced.table_asg_ok g_items [IOther; IRule RMatch [77]%N []; ITerm [] 0; IOther; IAsgn [105]%N OpList] 24 = false.
+Proof. exact BuildPlaced.table_asg_refuted. Qed.
+Print Assumptions C06_table_asg_refuted.
